@@ -228,6 +228,7 @@ func rulesC10(c *Ctx) {
 	c10LivenessReset(c)
 	c10LivenessRemovedNode(c)
 	c10Round4(c, g)
+	c10Round5(c)
 	c10Support(c)
 
 	// ---- (b) multiplexer
